@@ -15,6 +15,7 @@ Contents
 The case analysis of exports *with* repositories is in `Proofs/QueryRepo.lean`.
 -/
 import OdmlModel.Model.Query
+import OdmlModel.Model.QuerySpec
 import OdmlModel.Proofs.Query
 
 set_option linter.unusedSimpArgs false
@@ -27,21 +28,6 @@ open Rdf List
 
 /-! ## 1. Direct specification for all searchable attributes -/
 
-/-- The attributes a query may ask for: every attribute name the query parsers accept for the
-    kind of object, except the two lists of children (`sections`, `properties`). -/
-def fullAttrs : Kind → List String
-  | .doc => ["author", "version", "date", "id", "repository"]
-  | .sec => ["name", "type", "definition", "reference", "id", "repository"]
-  | .prop => ["name", "definition", "dtype", "unit", "reference", "value_origin", "uncertainty",
-              "id", "value"]
-
-def fullPairB (k : Kind) (x : Pair) : Bool :=
-  x.kind == k && (fullAttrs k).contains (String.ofList x.attr)
-
-/-- Decidable form of `QueryFull`. -/
-def queryFullB (q : QParams) : Bool :=
-  q.doc.all (fullPairB .doc) && q.sec.all (fullPairB .sec) && q.prop.all (fullPairB .prop)
-
 def fullPair (k : Kind) (x : Pair) : Prop := x.kind = k ∧ String.ofList x.attr ∈ fullAttrs k
 
 /-- **QueryFull**: every pair sits under its own key and asks for a searchable attribute of that
@@ -53,40 +39,20 @@ theorem queryFull_of_B {q : QParams} (h : queryFullB q = true) : QueryFull q := 
   simp only [queryFullB, Bool.and_eq_true, all_eq_true, fullPairB, beq_iff_eq, contains_iff_mem] at h
   exact ⟨fun x hx => h.1.1 x hx, fun x hx => h.1.2 x hx, fun x hx => h.2 x hx⟩
 
-/-- The object with this id and these attributes carries the requested value: for `id` the id is
-    the searched string, otherwise the attribute's Python value, as text, is (`carries`). -/
-def objCarries (id : Str) (a : Attrs) (x : Pair) : Bool :=
-  if x.attr == "id".toList then id == x.val else carries a x
+/-- The order of evaluation the driver uses gives the specification itself. -/
+theorem directEvalU'_eq (ds : List DocT) (q : QParams) : directEvalU' ds q = directEval' ds q := by
+  unfold directEvalU' directEval'
+  apply List.filter_congr
+  intro r _
+  unfold rowOK'
+  cases unboundOK q r.1 r.2.1 r.2.2 <;> simp
 
-/-- A Property carries a pair: for `value` every searched value is the text of one of its values
-    (`carriesValues`), otherwise as for every object. -/
-def propCarries (p : PropT) (x : Pair) : Bool :=
-  if x.attr == "value".toList then carriesValues p x else objCarries p.id p.attrs x
-
-/-- `?d` is a Document that carries all requested Document pairs. -/
-def partD' (ds : List DocT) (q : QParams) (od : Option Term) : Bool :=
-  q.doc.isEmpty || ds.any fun d => od == some (node d.id) && q.doc.all (objCarries d.id d.attrs)
-
-/-- `?s` is a Section that carries all requested Section pairs and `?d` is what directly
-    contains it. -/
-def partS' (ds : List DocT) (q : QParams) (od os : Option Term) : Bool :=
-  q.sec.isEmpty || (allSecsWithParent ds).any fun ps =>
-    od == some ps.1 && os == some (node ps.2.id) && q.sec.all (objCarries ps.2.id ps.2.attrs)
-
-/-- `?p` is a Property that carries all requested Property pairs and `?s` is the Section that
-    directly contains it. -/
-def partP' (ds : List DocT) (q : QParams) (os op : Option Term) : Bool :=
-  q.prop.isEmpty || (allSecsWithParent ds).any fun ps =>
-    os == some (node ps.2.id) && ps.2.props.any fun p => op == some (node p.id) && q.prop.all (propCarries p)
-
-def rowOK' (ds : List DocT) (q : QParams) (row : Row) : Bool :=
-  partD' ds q row.1 && partS' ds q row.1 row.2.1 && partP' ds q row.2.1 row.2.2 &&
-    unboundOK q row.1 row.2.1 row.2.2
-
-/-- Rows `(?d, ?s, ?p)` of objects related by direct containment that carry all requested pairs,
-    for queries over all searchable attributes (same candidates and same relations between the
-    variables as `directEval`). -/
-def directEval' (ds : List DocT) (q : QParams) : List Row := (candidates ds).filter (rowOK' ds q)
+theorem directEvalU_eq (ds : List DocT) (q : QParams) : directEvalU ds q = directEval ds q := by
+  unfold directEvalU directEval
+  apply List.filter_congr
+  intro r _
+  unfold rowOK
+  cases unboundOK q r.1 r.2.1 r.2.2 <;> simp
 
 theorem attr_ne_of {y : Pair} {k : String} (h : String.ofList y.attr ≠ k) :
     (y.attr == k.toList) = false := by
